@@ -11,25 +11,27 @@ import (
 // jump cycle contains a yield (Next always terminates).
 
 type genCfg struct {
-	Family    string
-	MaxNodes  int
-	MaxDepth  int
-	MaxStmts  int     // per body
-	Opts      float64 // weights of statement kinds
-	Ifs       float64
-	Sets      float64
-	Jumps     float64
-	Stops     float64
-	Lines     float64
-	Cmds      float64
-	Calls     float64
-	PendCmds  bool // commands that are not complete on return
-	FailCmds  bool
-	Faults    float64 // probability that a generated expression / statement is faulty
-	IllTyped  bool    // assignments over every (current type, assigned type, operator)
-	VisitLine bool    // node bodies start with a line rendering visited()/visited_count()
-	RichExpr  bool    // deeper expression trees with probes
-	Storer    string
+	Family     string
+	MaxNodes   int
+	MaxDepth   int
+	MaxStmts   int     // per body
+	Opts       float64 // weights of statement kinds
+	Ifs        float64
+	Sets       float64
+	Jumps      float64
+	Stops      float64
+	Lines      float64
+	Cmds       float64
+	Calls      float64
+	PendCmds   bool // commands that are not complete on return
+	FailCmds   bool
+	Faults     float64 // probability that a generated expression / statement is faulty
+	IllTyped   bool    // assignments over every (current type, assigned type, operator)
+	VisitLine  bool    // node bodies start with a line rendering visited()/visited_count()
+	RichExpr   bool    // deeper expression trees with probes
+	JumpFaults float64 // probability that a jump fails (unknown node, non-string destination, failing expression)
+	CountJumps bool    // node titles N0..N2 and jumps whose destination is computed from a visit count
+	Storer     string
 }
 
 var families = map[string]genCfg{
@@ -40,12 +42,13 @@ var families = map[string]genCfg{
 	"cmds": {Family: "cmds", MaxNodes: 2, MaxDepth: 2, MaxStmts: 4, Opts: 1.5, Ifs: 0.5, Sets: 1, Jumps: 0.7, Stops: 0.3, Lines: 2,
 		Cmds: 4, Calls: 0.3, PendCmds: true, FailCmds: true, Storer: "recording"},
 	"vars": {Family: "vars", MaxNodes: 1, MaxDepth: 1, MaxStmts: 7, Sets: 6, Lines: 2, Ifs: 0.3, IllTyped: true, Storer: "recording"},
-	"expr": {Family: "expr", MaxNodes: 1, MaxDepth: 1, MaxStmts: 6, Sets: 2, Lines: 4, Ifs: 1, Calls: 1, RichExpr: true, Faults: 0.15,
+	// (two nodes and jumps: the same expression nodes are evaluated again and again while the variables change)
+	"expr": {Family: "expr", MaxNodes: 2, MaxDepth: 1, MaxStmts: 6, Sets: 2.5, Lines: 4, Ifs: 1, Calls: 1, Jumps: 0.8, RichExpr: true, Faults: 0.12,
 		Storer: "recording"},
 	"faults": {Family: "faults", MaxNodes: 3, MaxDepth: 3, MaxStmts: 4, Opts: 2, Ifs: 2, Sets: 2, Jumps: 1, Stops: 0.3, Lines: 3,
 		Cmds: 1.5, Calls: 1, Faults: 0.2, FailCmds: true, Storer: "recording"},
 	"visits": {Family: "visits", MaxNodes: 3, MaxDepth: 2, MaxStmts: 3, Opts: 2, Ifs: 1.5, Sets: 0.5, Jumps: 4, Stops: 0.3, Lines: 1.5,
-		VisitLine: true, Storer: "recording"},
+		VisitLine: true, JumpFaults: 0.12, CountJumps: true, Storer: "recording"},
 	"snap": {Family: "snap", MaxNodes: 3, MaxDepth: 2, MaxStmts: 4, Opts: 2, Ifs: 1, Sets: 3, Jumps: 2.5, Stops: 0.3, Lines: 2,
 		Cmds: 1.5, PendCmds: true, VisitLine: true, Storer: "recording"},
 }
@@ -138,6 +141,9 @@ func genCase(rnd *rand.Rand, cfg genCfg, id int) *Case {
 	g.c = c
 	nn := 1 + rnd.Intn(cfg.MaxNodes)
 	g.titles = nodeTitles[:nn]
+	if cfg.CountJumps {
+		g.titles = []string{"N0", "N1", "N2"}[:nn]
+	}
 	// typed variables, initialised at the top of the start node
 	g.vnames = []string{"x", "y", "b", "s"}
 	g.vtypes = map[string]string{"x": "n", "y": "n", "b": "b", "s": "s"}
@@ -174,7 +180,7 @@ func (g *gen) headLine(node int) Stmt {
 	parts := []Part{{Lit: fmt.Sprintf("Node %s", g.titles[node])}}
 	if g.cfg.VisitLine {
 		for _, t := range g.titles {
-			parts = append(parts, Part{Lit: " " + t[:1] + "="}, Part{E: eCall("visited_count", eStr(t))},
+			parts = append(parts, Part{Lit: " " + t + "="}, Part{E: eCall("visited_count", eStr(t))},
 				Part{Lit: "/"}, Part{E: eCall("visited", eStr(t))})
 		}
 		parts = append(parts, Part{Lit: " none="}, Part{E: eCall("visited_count", eStr("Nowhere"))},
@@ -252,6 +258,9 @@ func (g *gen) expr(t string, depth int) *Expr {
 		case 6:
 			return eBin("mod", g.expr("n", depth-1), []*Expr{eNum(2, 1), eNum(3, 1), eNum(3, 2), eNeg(eNum(2, 1)), eNum(5, 4)}[r.Intn(5)])
 		case 7:
+			if r.Intn(3) == 0 {
+				return eCall("cint", eNum(r.Intn(7), 1))
+			}
 			return eCall("p1", g.expr("n", depth-1))
 		default:
 			return eCall("visited_count", eStr(g.titles[r.Intn(len(g.titles))]))
@@ -280,8 +289,11 @@ func (g *gen) expr(t string, depth int) *Expr {
 		case 8:
 			return eBin("xor", g.expr("b", depth-1), g.expr("b", depth-1))
 		default:
-			if r.Intn(2) == 0 {
+			switch r.Intn(3) {
+			case 0:
 				return eCall("p2", g.expr("b", depth-1))
+			case 1:
+				return eCall("cbool", g.expr("b", depth-1))
 			}
 			return eCall("visited", eStr(g.titles[r.Intn(len(g.titles))]))
 		}
@@ -298,6 +310,9 @@ func (g *gen) expr(t string, depth int) *Expr {
 		case 0, 1:
 			return eBin("add", g.expr("s", depth-1), g.expr("s", depth-1))
 		case 2:
+			if r.Intn(2) == 0 {
+				return eCall("cstr", g.expr("s", depth-1))
+			}
 			return eCall("p1", g.expr("s", depth-1))
 		default:
 			return eCall("string", g.expr([]string{"n", "b", "s"}[r.Intn(3)], depth-1))
@@ -324,7 +339,10 @@ func (g *gen) faultyExpr(t string, depth int) *Expr {
 		if t == "b" {
 			return eNot(eCall("noret"))
 		}
-		return eNeg(eNull())
+		if t == "s" {
+			return eCall("cstr", g.expr("n", 0)) // wrong argument type for a converted function
+		}
+		return eCall("cbool", g.expr("s", 0), g.expr("b", 0)) // wrong count
 	case 0:
 		return eVar("nosuchvar")
 	case 1:
@@ -553,8 +571,16 @@ func (g *gen) stmts(depth int, node int) []Stmt {
 			default:
 				e = eStr(target)
 			}
-			if cfg.Faults > 0 && r.Float64() < cfg.Faults {
-				e = []*Expr{eStr("NoSuchNode"), eNum(3, 1), eBin("add", eStr("No"), eStr("Node"))}[r.Intn(3)]
+			if cfg.CountJumps && r.Intn(4) == 0 {
+				// the destination depends on a visit count, e.g. of the node being left: "N" + string(visited_count("N1") % 2)
+				of := g.titles[r.Intn(len(g.titles))]
+				if r.Intn(2) == 0 {
+					of = g.titles[node]
+				}
+				e = eBin("add", eStr("N"), eCall("string", eBin("mod", eCall("visited_count", eStr(of)), eNum(len(g.titles), 1))))
+			}
+			if cfg.Faults > 0 && r.Float64() < cfg.Faults || r.Float64() < cfg.JumpFaults {
+				e = []*Expr{eStr("NoSuchNode"), eNum(3, 1), eBin("add", eStr("No"), eStr("Node")), eCall("boom"), eVar("nosuchvar")}[r.Intn(5)]
 			}
 			out = append(out, Stmt{K: "jump", E: e})
 			lastWasOpts = false
